@@ -212,9 +212,10 @@ pub mod pool_sdk {
     impl<E: SystemApiError> AndThenResourceType<E> for Result<ResourceAddress, E> {
         #[verifier::external_body]
         fn and_then_resource_type<Y: SystemApi<E>>(self, api: &mut Y) -> (r: Result<ResourceType, E>)
-            ensures final(api).world() == old(api).world(), final(api).state() == old(api).state(), r matches Err(e) ==> !e.is_pool_error(),
+            ensures final(api).world() == old(api).world(), final(api).state() == old(api).state(),
                     self matches Err(e) ==> r == Err::<ResourceType, E>(e),
                     self matches Ok(a) ==> (r matches Ok(t) ==> t == old(api).world().rtype[a]),
+                    self matches Ok(a) ==> (r matches Err(e) ==> !e.is_pool_error()),
         { unimplemented!() }
     }
     pub struct Runtime;
